@@ -16,7 +16,7 @@
 (* chunks) then "op" (merges / in-place merges / scalings / copies in any  *)
 (* order and grouping, and further fills of results and sources).          *)
 (***************************************************************************)
-EXTENDS HgSem
+EXTENDS HgSem, HgParse
 
 CONSTANTS D,          \* the descriptor all slots share
           Data,       \* set of datum records (the critical alphabet of D)
@@ -139,6 +139,26 @@ BatchSplit ==
   \A x1 \in Data, x2 \in Data, w1 \in PosW, w2 \in W :
      FoldFill(pool[1], D, <<x1, x2>>, <<w1, w2>>)
        = FoldFill(FoldFill(pool[1], D, <<x1>>, <<w1>>), D, <<x2>>, <<w2>>)
+
+(* C04 at the design level: the wire format is lossless and a fixpoint on every reachable state - the document   *)
+(* of a state parses as valid, back to exactly that state, and re-serialises to the same document; a reloaded   *)
+(* state merges like the original (its descriptor is what the document preserves: Forget)                        *)
+RoundTrip ==
+  \A s \in Slots :
+    LET doc == ToDoc(pool[s], D)
+        r == Parse(doc)
+    IN /\ Strict(doc)
+       /\ r.st = "valid"
+       /\ r.c = pool[s]
+       /\ DocEq(ToDoc(r.c, r.d), doc)
+       /\ CompatD(D, r.d) /\ CompatD(r.d, D)
+
+RTdoc(s) == ToDoc(pool[s], D)
+RT1 == \A s \in Slots : Strict(RTdoc(s))
+RT2 == \A s \in Slots : Parse(RTdoc(s)).st = "valid"
+RT3 == \A s \in Slots : Parse(RTdoc(s)).c = pool[s]
+RT4 == \A s \in Slots : LET r == Parse(RTdoc(s)) IN DocEq(ToDoc(r.c, r.d), RTdoc(s))
+RT5 == \A s \in Slots : LET r == Parse(RTdoc(s)) IN CompatD(D, r.d) /\ CompatD(r.d, D)
 
 (* C06 / C07: every step changes at most the slot its action names          *)
 FrameOK ==
